@@ -609,6 +609,9 @@ def check_symbol(matrix, args, meta=None, props=None):
         out.append((prop, 'unreadable', {'error': err}))
         if on('C01') and prop != 'C01':
             out.append(('C01', 'unreadable', {'error': err}))
+        if on('C06'):
+            # the stream is not valid under the mask announced by the format information
+            out.append(('C06', 'unreadable-under-announced-mask', {'error': err}))
         return [d for d in out if on(d[0])], None, info
     a = normalize_args(args)
     try:
@@ -638,4 +641,7 @@ def check_symbol(matrix, args, meta=None, props=None):
         check_level_choice(s, parts, a, out)
     if on('C06'):
         info['mask_scores'] = check_mask(s, matrix, a, out)
+        if s.function_pattern_errors:
+            out.append(('C06', 'function-modules-changed', {'n': len(s.function_pattern_errors),
+                                                            'first': s.function_pattern_errors[:4]}))
     return [d for d in out if on(d[0])], s, info
